@@ -137,7 +137,10 @@ func valOf(r resource.Resource) Val {
 	return v
 }
 
-// recorder logs every successful write in commit order.
+type extKey struct{}
+
+// recorder logs every successful write in commit order; it can also park the controller's writes so
+// that the external actor gets to act between any two store operations of a reconcile.
 type recorder struct {
 	state.CoreState
 
@@ -145,6 +148,62 @@ type recorder struct {
 	emit  func(Line)
 	last  map[string]Val
 	count atomic.Int64
+
+	gmu    sync.Mutex
+	hold   bool
+	parked []chan struct{}
+}
+
+// gate parks a write issued by the controller while the write gate is armed.
+func (r *recorder) gate(ctx context.Context) {
+	if ctx.Value(extKey{}) != nil {
+		return
+	}
+
+	r.gmu.Lock()
+	if !r.hold {
+		r.gmu.Unlock()
+
+		return
+	}
+
+	ch := make(chan struct{})
+	r.parked = append(r.parked, ch)
+	r.gmu.Unlock()
+
+	select {
+	case <-ch:
+	case <-ctx.Done():
+	}
+}
+
+func (r *recorder) holdWrites() {
+	r.gmu.Lock()
+	r.hold = true
+	r.gmu.Unlock()
+}
+
+func (r *recorder) stepWrite() {
+	r.gmu.Lock()
+	defer r.gmu.Unlock()
+
+	if len(r.parked) > 0 {
+		close(r.parked[0])
+		r.parked = r.parked[1:]
+	}
+}
+
+func (r *recorder) freeWrites() {
+	r.gmu.Lock()
+	defer r.gmu.Unlock()
+
+	r.hold = false
+
+	for _, ch := range r.parked {
+		close(ch)
+	}
+
+	r.parked = nil
 }
 
 func kindOf(typ resource.Type) string {
@@ -156,6 +215,8 @@ func kindOf(typ resource.Type) string {
 }
 
 func (r *recorder) Create(ctx context.Context, res resource.Resource, o ...state.CreateOption) error {
+	r.gate(ctx)
+
 	r.mu.Lock()
 	defer r.mu.Unlock()
 
@@ -171,6 +232,8 @@ func (r *recorder) Create(ctx context.Context, res resource.Resource, o ...state
 }
 
 func (r *recorder) Update(ctx context.Context, res resource.Resource, o ...state.UpdateOption) error {
+	r.gate(ctx)
+
 	r.mu.Lock()
 	defer r.mu.Unlock()
 
@@ -186,6 +249,8 @@ func (r *recorder) Update(ctx context.Context, res resource.Resource, o ...state
 }
 
 func (r *recorder) Destroy(ctx context.Context, ptr resource.Pointer, o ...state.DestroyOption) error {
+	r.gate(ctx)
+
 	r.mu.Lock()
 	defer r.mu.Unlock()
 
@@ -275,7 +340,8 @@ func (g *gateT) release() {
 
 func runBehaviour(t *testing.T, tr *vh.Trace, tid string, cfg Config, beh []Cmd) {
 	synctest.Test(t, func(t *testing.T) {
-		ctx, cancel := context.WithCancel(context.Background())
+		rootCtx, cancel := context.WithCancel(context.Background())
+		ctx := context.WithValue(rootCtx, extKey{}, true) // the external actor's context (never gated)
 		start := time.Now()
 
 		var emu sync.Mutex
@@ -372,7 +438,7 @@ func runBehaviour(t *testing.T, tr *vh.Trace, tid string, cfg Config, beh []Cmd)
 
 		runDone := make(chan error, 1)
 
-		go func() { runDone <- rtm.Run(ctx) }()
+		go func() { runDone <- rtm.Run(rootCtx) }()
 
 		synctest.Wait()
 
@@ -433,6 +499,12 @@ func runBehaviour(t *testing.T, tr *vh.Trace, tid string, cfg Config, beh []Cmd)
 				st.AddFinalizer(ctx, bPtr(c.ID), "F") //nolint:errcheck
 			case "remF":
 				st.RemoveFinalizer(ctx, bPtr(c.ID), "F") //nolint:errcheck
+			case "holdw":
+				rec.holdWrites()
+			case "stepw":
+				rec.stepWrite()
+			case "freew":
+				rec.freeWrites()
 			case "arm":
 				g.arm()
 			case "release":
@@ -447,6 +519,7 @@ func runBehaviour(t *testing.T, tr *vh.Trace, tid string, cfg Config, beh []Cmd)
 		}
 
 		g.release()
+		rec.freeWrites()
 
 		for range 10 {
 			before := rec.count.Load()
